@@ -533,8 +533,8 @@ func genRawHostileAt(idx uint64, g *rand.Rand, tier string) any {
 }
 
 func init() {
-	Register(&Family{Name: "raw.foreign", Props: []string{"C03", "C05"}, New: func() any { return &RawSrvParams{} }, Gen: genRawValid, Exec: execRawSrv,
+	Register(&Family{Name: "raw.foreign", ShrinkKeys: []string{"seq"}, Props: []string{"C03", "C05"}, New: func() any { return &RawSrvParams{} }, Gen: genRawValid, Exec: execRawSrv,
 		Faulty: true, FaultKinds: []string{"link.readFail"}})
-	Register(&Family{Name: "raw.hostile-server", Props: []string{"C13"}, New: func() any { return &RawSrvParams{} }, Gen: genRawHostile, GenAt: genRawHostileAt, Exec: execRawSrv,
+	Register(&Family{Name: "raw.hostile-server", ShrinkKeys: []string{"seq"}, Props: []string{"C13"}, New: func() any { return &RawSrvParams{} }, Gen: genRawHostile, GenAt: genRawHostileAt, Exec: execRawSrv,
 		Faulty: true, FaultKinds: []string{"peer.malformed", "link.readFail"}})
 }
